@@ -46,7 +46,6 @@ import random
 import re
 import signal
 import time
-from fractions import Fraction
 
 import numpy as np
 
@@ -152,21 +151,31 @@ def s_triangular(low=0.0, high=1.0, mode=None):
     return low + (high - low) * math.sqrt(u * c)
 
 
-def _disc(n, weights=None, args=()):
-    """Discrete branch: every alternative with positive weight is explored."""
+def _disc(n, args=()):
+    """Discrete branch: every alternative is explored."""
     if n == 1:
         return 0
     if _S.stack:
-        if weights is not None:
-            return explorer.choose(n, weights=weights, tag="sel")
         return explorer.choose(n, tag="sel")
-    return _aux("disc", (n,) + tuple(args), n, weights)
+    return _aux("disc", (n,) + tuple(args), n)
 
 
-def _exact_weights(cum):
-    fr = [Fraction(float(c)) for c in cum]
-    tot = fr[-1]
-    return tuple((fr[i] - (fr[i - 1] if i else 0)) / tot for i in range(len(fr)))
+_POS_CACHE = {}
+
+
+def _positive(cum):
+    """Indices of the alternatives with positive weight (the law over them is irrelevant here:
+    every one of them is explored)."""
+    key = (id(cum), len(cum))
+    hit = _POS_CACHE.get(key)
+    if hit is not None and hit[0] is cum:
+        return hit[1]
+    idx = [i for i in range(len(cum)) if cum[i] > (cum[i - 1] if i else 0)]
+    if isinstance(cum, tuple):
+        if len(_POS_CACHE) > 64:
+            _POS_CACHE.clear()
+        _POS_CACHE[key] = (cum, idx)
+    return idx
 
 
 def s_choices(population, weights=None, *, cum_weights=None, k=1):
@@ -177,7 +186,10 @@ def s_choices(population, weights=None, *, cum_weights=None, k=1):
         if weights is None:
             return [population[_disc(n)]]
         cum_weights = list(itertools.accumulate(weights))
-    return [population[_disc(n, weights=_exact_weights(cum_weights))]]
+    idx = _positive(cum_weights)
+    if not idx:
+        raise ValueError("Total of weights must be greater than zero")
+    return [population[idx[_disc(len(idx))]]]
 
 
 def s_randrange(start, stop=None, step=1):
@@ -1013,15 +1025,16 @@ def check_program(item):
         if not p_failed:
             # the pruned regions are only checked for "nothing added": half the resolution, and
             # never more candidates than the original region gave (voxel slices have many triangles)
-            NP = max(2, focusN // 2)
-            sideP.prepare(lambda i: NP, params["sampler_cap"])
-            for i, (reg, off, pir) in sideP.bases.items():
-                n = NP
-                while sideP.cands[i] is not None and n > 2 and len(sideP.cands[i]) > max(300, len(full.get(i) or ())):
-                    n = max(2, n // 2)
-                    pts, nx, cut = sampler_candidates(pir.region, n, params["sampler_cap"])
-                    sideP.cands[i] = pts
-                    sideP.stats[i] = (nx, len(pts), cut)
+            def NP_of(i):
+                n = max(2, focusN // 2)
+                reg = sideP.bases[i][0]
+                tris = len(reg._samplingData[0]) if hasattr(reg, "_samplingData") else 1
+                budget = max(2048, 2 * sideU.stats.get(i, (0,))[0])
+                while n > 2 and tris * n ** (3 if spec.get("dim", 2) == 3 else 2) > budget:
+                    n -= 1
+                return n
+
+            sideP.prepare(NP_of, params["sampler_cap"])
             evP = Evaluator(sideP, params["N_partner"], params["max_evals"])
             fullP = {i: c for i, c in sideP.cands.items()}
             coarseP = {}
